@@ -1,9 +1,77 @@
 import WM.Proto
+import WM.Model.Analysis
 namespace WM.Drv.C17
-open WM.Proto
+open WM.Proto WM.Analysis
 
-/-- Protocol handler of family `c17` (requests arrive without the family token). -/
+/-! Protocol plumbing for family `c17` (nothing here is part of a theorem). -/
+
+def cchar? : SExp → Option CChar
+  | .list [c, w, s, l] => do some ⟨← c.nat?, ← w.bool?, ← s.bool?, ← l.natList?⟩
+  | _ => none
+
+def pat? : SExp → Option Pat
+  | .atom "default" => some .default
+  | .atom "space" => some .space
+  | .atom "comma" => some .comma
+  | _ => none
+
+def tokenizer? : SExp → Option Tokenizer
+  | .atom "id" => some .id
+  | .list [.atom "regex", p] => do some (.regex (← pat? p))
+  | .list [.atom "ngram", a, b] => do some (.ngram (← a.nat?) (← b.nat?))
+  | _ => none
+
+def at? : SExp → Option At
+  | .atom "start" => some .start
+  | .atom "end" => some .end
+  | .atom "all" => some .all
+  | _ => none
+
+def filter? : SExp → Option Filter
+  | .atom "lowercase" => some .lowercase
+  | .atom "strip" => some .strip
+  | .atom "pass" => some .pass
+  | .list [.atom "stop", stops, mn, mx, rn, rs] => do
+    some (.stop ⟨← SExp.listOf? SExp.natList? stops, ← mn.nat?, ← SExp.opt? SExp.nat? mx, ← rn.bool?, ← rs.bool?⟩)
+  | .list [.atom "ngram", a, b, at_] => do some (.ngram (← a.nat?) (← b.nat?) (← at? at_))
+  | .list [.atom "biword", sep] => do some (.biword (← sep.natList?))
+  | _ => none
+
+def mode? : SExp → Option Mode
+  | .atom "index" => some .index
+  | .atom "query" => some .query
+  | _ => none
+
+def mkTables (cs : List CChar) : Tables :=
+  { lower := fun c => match cs.find? (·.code == c) with
+      | some ch => ch.lower
+      | none => [c],
+    space := fun c => match cs.find? (·.code == c) with
+      | some ch => ch.space
+      | none => false }
+
+def showToken (t : Token) : String :=
+  s!"({showNatList t.text} {t.pos} {t.startchar} {t.endchar} {showBool t.stopped})"
+
+def span? : SExp → Option (Nat × Nat)
+  | .list [a, b] => do some (← a.nat?, ← b.nat?)
+  | _ => none
+
+def showPiece : Piece → String
+  | .plain s => s!"(p {showNatList s})"
+  | .marked s => s!"(m {showNatList s})"
+
 def handle : List SExp → String
+  | [.atom "analyze", m, tk, .list fs, .list cs] =>
+    match mode? m, tokenizer? tk, fs.mapM filter?, cs.mapM cchar? with
+    | some m, some tk, some fs, some cs => showList showToken (analyze (mkTables cs) tk fs m cs)
+    | _, _, _, _ => "bad-op"
+  | [.atom "format", text, .list ms, a, b] =>
+    match text.natList?, ms.mapM span?, a.nat?, b.nat? with
+    | some text, some ms, some a, some b =>
+      let ps := formatFragment text ms a b
+      showList showPiece ps ++ " " ++ showNatList (stripMarkup ps)
+    | _, _, _, _ => "bad-op"
   | _ => "bad-op"
 
 end WM.Drv.C17
